@@ -133,7 +133,8 @@ func TestC17(t *testing.T) {
 	cfg.WWalk = 22
 	cfg.WTx = 20
 	c.Check(t, "node-machine-window", hx.N(500, 3500), func(cs *hx.Case) {
-		runNodeCase(cs, fs, cfg, nil, func(nm *hx.NodeMachine) {
+		// a few adversarial peer blocks (state-invalid ones make multi-block walks abort part-way)
+		runMixedCase(cs, fs, cfg, 0, 9, nil, func(nm *hx.NodeMachine) {
 			if nm.Stat["walk-refused-irreversible"] > 0 {
 				cs.Nontrivial()
 			}
